@@ -119,12 +119,12 @@ def correspondence(ctx):
             i, j, n = int(t[0]), int(t[1]), t[2]
             va = (fl(t[3]), fl(t[4]))
             vb = gb.get((perm[i], perm[j], n))
-            if vb is None or abs(va[0] - vb[0]) + abs(va[1] - vb[1]) > 1e-9:
+            if vb is None or abs(va[0] - vb[0]) + abs(va[1] - vb[1]) > 2e-6 * (1.0 + abs(va[0]) + abs(va[1])):   # residues below 1e-8 are dropped order-dependently
                 bad = "G_%d%d(n=%s) = %s but after %s G_%d%d = %s" % (i, j, n, va, what, perm[i], perm[j], vb)
                 break
         occb = {int(t[0]): fl(t[1]) for t in ob.get("occ", [])}
         for t in oa.get("occ", []):
-            if abs(fl(t[1]) - occb.get(perm[int(t[0])], 1e9)) > 1e-9 and not bad:
+            if abs(fl(t[1]) - occb.get(perm[int(t[0])], 1e9)) > 1e-8 and not bad:
                 bad = "occupancy of index %s changes under %s" % (t[0], what)
         ea = sorted(fl(x) for x in (oa.get("allev") or [[0]])[0][1:])
         eb = sorted(fl(x) for x in (ob.get("allev") or [[0]])[0][1:])
